@@ -5,6 +5,13 @@ from ..builder import Canon
 from .. import rules_i as I, rules_g as G, frame as FR
 
 
+def after_table(s, n):
+    """an array table read at a computed index in the main loop must see the completed table: the version made of the
+    creation and all n entry stores; that exact version is dropped from the text (a Vec table carries none)"""
+    full = '#{' + '|'.join(sorted(['E'] + ['[%d]' % k for k in range(n)])) + '}'
+    return s.replace(']' + full, ']')
+
+
 def tnorm(s, names=('pre_table',)):
     """one notation T[i] for an element of the window table whether it is kept in a Vec (`index(new(), i)`) or in an
     array (`pre_table[i]`, `var:pre_table=repeat{zero()}[i]`)"""
@@ -71,8 +78,10 @@ def addition_chain(cx, rule, fn, table_local_create='new()', want=16, dbl=('poin
         x = x.strip()
         if x == '$self':
             return 1
-        m = re.match(r'^T\[(\d+)\]$', x)
-        if m:
+        # an array table: the read must see exactly the (single) store of that entry -- `T[k]#{[k]}`; a version that
+        # includes E (the entry as created) means the entry may not have been written yet
+        m = re.match(r'^T\[(\d+)\](?:#\{\[(\d+)\]\})?$', x)
+        if m and (m.group(2) is None or m.group(2) == m.group(1)):
             return mult.get(int(m.group(1)))
         return None
     for _, b, i, k, v in stores:
@@ -161,7 +170,7 @@ def sm2_scalar(cx):
     IDX = 'Shr($scalar[SubWithOverflow(3, %s).0], MulWithOverflow(SubWithOverflow(15, %s).0, 4).0)' % (I_, J_)
     tr = I.transfer(fn, F, 'Range::Range{0, 16}', ['r', 'index'], containing_call='point_add')
     want_r = 'point_dbl(point_dbl(point_dbl(point_dbl(phi(point_add(T[(BitAnd(SubWithOverflow(%s, 1).0, 15) as usize)], var:r@in) | var:r@in)))))' % IDX
-    cx.add('I-SCALAR', 'sm2/scalar_mul/step', tr is not None and tnorm(tr.get('r') or '', table_names(fn)) == want_r and tr.get('index') == IDX,
+    cx.add('I-SCALAR', 'sm2/scalar_mul/step', tr is not None and after_table(tnorm(tr.get('r') or '', table_names(fn)), 15) == want_r and tr.get('index') == IDX,
            'per 4-bit window (most significant first): r = 16 * (r + T[(w-1) & 15] if w != 0 else r), w = (scalar[3-i] >> 4(15-j)) & 15', fn.loc(), {'got': tr})
     conds = loop_conds(fn, F, 'Range::Range{0, 16}', 'point_add') or []
     want = ['Ne(BitAnd(%s, 15), 0)' % IDX, 'Eq(AddWithOverflow(%s, 1).0, len($scalar))' % I_, 'Eq(AddWithOverflow(%s, 1).0, 16)' % J_]
@@ -196,7 +205,7 @@ def sm9_scalar(cx):
         T = lambda b: 'T[(SubWithOverflow(%s, 1).0 as usize)]' % b
         tr = I.transfer(fn, F, 'rev(Range::Range{0, 52})', ['r', 'r_infinity', 'booth'])
         if tr is not None and tr.get('r'):
-            tr['r'] = tnorm(tr['r'], table_names(fn))
+            tr['r'] = after_table(tnorm(tr['r'], table_names(fn)), 16)
         want = sorted(['G1.point_add(point_double_x5(var:r@in), %s)' % T(B), 'G1.point_sub(point_double_x5(var:r@in), %s)' % T('Neg(%s)' % B), T(B), 'point_double_x5(var:r@in)', 'var:r@in'])
         cx.add('I-SCALAR', 'sm9/point_mul/step', tr is not None and alts(tr['r']) == want and tr['booth'] == B and alts(tr['r_infinity']) == ['0', 'var:r_infinity@in'],
                '5-bit signed windows from the top: first non-zero digit loads T[d-1]; afterwards r = 32r (+ T[d-1] | - T[-d-1])', fn.loc(), {'got': tr})
